@@ -1,5 +1,95 @@
 (* driver_ext.ml - further case kinds (added as the model grows) *)
 open Model
 open Glue
+
+let comma = n_of_int 44 and lpar = n_of_int 40 and rpar = n_of_int 41 and dot = n_of_int 46
+let rec index_first c i = function [] -> -1 | x :: l -> if x = c then i else index_first c (i+1) l
+let index_last c l =
+  let rec go i best = function [] -> best | x :: l -> go (i+1) (if x = c then i else best) l in go 0 (-1) l
+let rec drop n l = if n <= 0 then l else match l with [] -> [] | _ :: l' -> drop (n-1) l'
+let rec take n l = if n <= 0 then [] else match l with [] -> [] | x :: l' -> x :: take (n-1) l'
+let field_le t bound =
+  if t <> [] && all_digits t && N.leb (dec_value t) (n_of_int bound) then Some (dec_value t) else None
+
+(* specification of the 227 parser, as characterised by C06_pasv_sound/complete/rejects *)
+let spec_pasv (s : n list) : string =
+  let b = index_first lpar 0 s and e = index_last rpar s in
+  if b < 0 || e < 0 || b >= e then "none" else
+  let inner = take (e - b - 1) (drop (b + 1) s) in
+  match drop_last_empty (pieces comma inner) with
+  | [t0; t1; t2; t3; t4; t5] ->
+    (match field_le t4 255, field_le t5 255 with
+     | Some hi, Some lo ->
+       hex_of_bytes (t0 @ [dot] @ t1 @ [dot] @ t2 @ [dot] @ t3) ^ " " ^ string_of_n (N.add (N.mul hi (n_of_int 256)) lo)
+     | _ -> "none")
+  | _ -> "none"
+
+(* specification of the 229 parser, as characterised by C06_epsv_iff *)
+let spec_epsv (s : n list) : string =
+  let b = index_first lpar 0 s and e = index_last rpar s in
+  if b < 0 || e < 0 || b >= e then "none" else
+  let inner = take (e - b - 1) (drop (b + 1) s) in
+  match inner with
+  | d :: d2 :: d3 :: rest when d = d2 && d = d3 && rest <> [] ->
+    let dv = int_of_n d in
+    let lastc = List.nth rest (List.length rest - 1) in
+    let digits = take (List.length rest - 1) rest in
+    if dv < 33 || dv > 126 || lastc <> d then "none" else
+    (match field_le digits 65535 with Some p -> string_of_n p | None -> "none")
+  | _ -> "none"
+
+let ip_of f = match f with
+  | "4" :: a :: b :: c :: d :: rest -> (V4 (n_of_string a, n_of_string b, n_of_string c, n_of_string d), rest)
+  | "6" :: t :: rest -> (V6 (bytes_of_hex t), rest)
+  | _ -> failwith "ip"
+let str s = List.init (String.length s) (fun i -> n_of_int (Char.code s.[i]))
+
 let run (f : string list) : string * string =
-  ("MODEL-ERROR unknown case kind: " ^ String.concat " " f, "MODEL-ERROR")
+  match f with
+  | ["pasv"; t] ->
+    let s = bytes_of_hex t in
+    let m = match try_parse_pasv_reply s with
+      | None -> "none" | Some (ip, p) -> hex_of_bytes ip ^ " " ^ string_of_n p in
+    (m, spec_pasv s)
+  | ["epsv"; t] ->
+    let s = bytes_of_hex t in
+    ((match try_parse_epsv_reply s with None -> "none" | Some p -> string_of_n p), spec_epsv s)
+  | "portcmd" :: rest ->
+    let (ip, r) = ip_of rest in
+    let p = n_of_string (List.hd r) in
+    let m = match make_port_command ip p with None -> "exn:ftp_exception" | Some c -> hex_of_bytes c in
+    (* spec: RFC 959 h1,h2,h3,h4,p1,p2 for IPv4; an error for anything else *)
+    let s = match rest with
+      | "4" :: a :: b :: c :: d :: [pp] ->
+        let pi = int_of_string pp in
+        hex_of_bytes (str (Printf.sprintf "PORT %s,%s,%s,%s,%d,%d" a b c d (pi / 256) (pi mod 256)))
+      | _ -> "exn:ftp_exception" in
+    (m, s)
+  | "eprtcmd" :: rest ->
+    let (ip, r) = ip_of rest in
+    let p = n_of_string (List.hd r) in
+    let m = hex_of_bytes (make_eprt_command ip p) in
+    let s = match rest with
+      | "4" :: a :: b :: c :: d :: [pp] -> hex_of_bytes (str (Printf.sprintf "EPRT |1|%s.%s.%s.%s|%s|" a b c d pp))
+      | "6" :: t :: [pp] -> hex_of_bytes (str "EPRT |2|" @ bytes_of_hex t @ str ("|" ^ pp ^ "|"))
+      | _ -> "?" in
+    (m, s)
+  | ["port_rt"; a; b; c; d; pp] ->
+    (* format with PORT, read back with the 227 parser *)
+    let ip = V4 (n_of_string a, n_of_string b, n_of_string c, n_of_string d) in
+    let m = match make_port_command ip (n_of_string pp) with
+      | None -> "exn:ftp_exception"
+      | Some c ->
+        let args = drop 5 c in
+        (match try_parse_pasv_reply (str "227 ok (" @ args @ str ").") with
+         | None -> "none" | Some (ip, p) -> hex_of_bytes ip ^ " " ^ string_of_n p) in
+    (m, hex_of_bytes (str (Printf.sprintf "%s.%s.%s.%s" a b c d)) ^ " " ^ pp)
+  | ["eprt_rt"; pp] ->
+    let c = make_eprt_command (V4 (n_of_int 127, N0, N0, n_of_int 1)) (n_of_string pp) in
+    (* take the port field and read it back through the 229 parser *)
+    let fieldsl = pieces (n_of_int 124) c in
+    let portf = List.nth fieldsl 3 in
+    let m = match try_parse_epsv_reply (str "229 ok (|||" @ portf @ str "|)") with
+      | None -> "none" | Some p -> string_of_n p in
+    (m, pp)
+  | _ -> ("MODEL-ERROR unknown case kind: " ^ String.concat " " f, "MODEL-ERROR")
